@@ -78,7 +78,7 @@ for q in json.loads(sys.argv[1]):
         out.append(['no-error', w.writes])
     except Exception as e:
         out.append([rbql_engine.exception_to_error_info(e)[0], w.writes, type(e).__name__])
-print(json.dumps(out))
+print(json.dumps(out, default=repr))
 '''
     import subprocess
     r = subprocess.run([common.PY, '-W', 'ignore', '-c', code, json.dumps(STATIC_ERRORS)], env=common.impl_env(), stdout=subprocess.PIPE, stderr=subprocess.PIPE, timeout=120)
